@@ -199,6 +199,66 @@ def rWriteResult : WriteResult → String
 def natOpt (s : String) : Option (Option Nat) :=
   if s == "-" then some none else s.toNat?.map some
 
+/-! ### the mirrored library functions, applied directly (`LIB` ops) -/
+
+def rOrd : Ordering → String
+  | .lt => "L"
+  | .eq => "E"
+  | .gt => "G"
+
+def rPairOpt : Option (Bytes × Bytes) → String
+  | none => "-"
+  | some (a, b) => "(" ++ hx a ++ "," ++ hx b ++ ")"
+
+def libOp (f : String) (a : List String) : Option String :=
+  match f, a with
+  | "utf8", [x] => (unhex x).map fun b => if validUtf8 b then "1" else "0"
+  | "trim", [x] =>
+    match unhex x with
+    | some b => if validUtf8 b then some (hx (trim b) ++ " " ++ hx (trimStart b) ++ " " ++ hx (trimEnd b)) else none
+    | none => none
+  | "lines", [x] =>
+    match unhex x with
+    | some b => if validUtf8 b then some ("[" ++ joinWith ";" ((strLines b).map hx) ++ "]") else none
+    | none => none
+  | "num", [x] =>
+    match unhex x with
+    | some b =>
+      if validUtf8 b then
+        some (optS toString (parseUnsignedStr usizeBound b) ++ " " ++ optS toString (parseUnsignedStr u32Bound b))
+      else none
+    | none => none
+  | "dec", [n] => n.toNat?.bind fun n => if n < usizeBound then some (hx (natToDec n)) else none
+  | "cmp", [x, y] =>
+    match unhex x, unhex y with
+    | some bx, some by' =>
+      if validUtf8 bx && validUtf8 by' then
+        some (rOrd (cmpBytes bx by') ++ " " ++ rOrd (cmpPair (bx, [107]) (by', [106])))
+      else none
+    | _, _ => none
+  | "split", [x, c] =>
+    match unhex x, unhex c with
+    | some b, some [c] =>
+      if validUtf8 b && c < 128 then
+        some (rPairOpt (splitOnce c b) ++ " " ++ rPairOpt (rsplitOnce c b) ++ " " ++ rPairOpt (splitColonSpace b))
+      else none
+    | _, _ => none
+  | "bs", [pat] =>
+    let cs := pat.toList.filter (· != '.')
+    if cs.all (fun c => c == 'L' || c == 'E' || c == 'G') then
+      let p : List Ordering := cs.map fun c => if c == 'L' then .lt else if c == 'E' then .eq else .gt
+      some (match binarySearch p.length (fun i => (p[i]?).getD .gt) with
+        | .ok i => "ok " ++ toString i
+        | .error i => "err " ++ toString i)
+    else none
+  | "leb", [x] =>
+    (unhex x).map fun b =>
+      match lebRead 0 0 b with
+      | some (v, rest) => toString v ++ " " ++ toString (b.length - rest.length)
+      | none => "-"
+  | "lebw", [n] => n.toNat?.bind fun n => if n < usizeBound then some (hx (lebWrite n)) else none
+  | _, _ => none
+
 /-! ### one operation -/
 
 def rMeta (bs : Bytes) : String :=
@@ -401,6 +461,7 @@ def step (st : St) (line : String) : St × String :=
     match unhex c, unhexOpt m with
     | some c, some m => (st, hx (printThrowable ⟨c, m⟩))
     | _, _ => bad
+  | "LIB" :: f :: rest => (st, (libOp f rest).getD "bad-op")
   | ["FMT", h] =>
     match unhex h with
     | some bs => (st, Format.check bs)
